@@ -8,6 +8,8 @@
 //                                                    strings, length fields at the 32-bit edges, many small frames);
 //                                                    also the sub that replays text regression files of all four.
 // Oracle:
+//   Every input can be run with TRAFFIC LOGGING on (op `log 1`: Proto::setLogEnable(true) + label + a registered log channel that
+//   swallows the lines; without a channel the log front end never formats the text): the logged path reads the frame text too.
 //   1. totality: no exception (the common wrapper reports an escaping one), no crash / sanitizer report
 //      (every call gets an exact-size heap copy of the readable bytes), ret <= size, termination;
 //   2. resumability: unsegmented feed, the generated segmentation and (streams <= 1 KiB) byte-by-byte feeding
@@ -22,7 +24,7 @@ using namespace c14;
 
 namespace {
 
-enum { PROTO, RAW, REP, LIT, HDR, HDRAUTO, NEST, UNNEST, CUT, ENDFRAME, NOPS };
+enum { PROTO, RAW, REP, LIT, HDR, HDRAUTO, NEST, UNNEST, CUT, ENDFRAME, LOG, NOPS };
 const char *const kLits[] = {
   /*0*/ "{\"jsonrpc\":\"2.0\",\"method\":\"m\",\"params\":",
   /*1*/ "}",
@@ -45,7 +47,7 @@ const char *const kOpen[] = {"[", "{\"a\":"};
 const char *const kClose[] = {"]", "}"};
 const size_t kMaxStream = 12u << 20;
 
-struct Built { int proto; std::string stream; std::vector<size_t> cuts; bool deep = false, big = false, edge_len = false; };
+struct Built { int proto; std::string stream; std::vector<size_t> cuts; bool deep = false, big = false, edge_len = false, log = false; };
 
 Built build(const Scenario &s, int dflt_proto) {
   Built b; b.proto = dflt_proto;
@@ -77,6 +79,7 @@ Built build(const Scenario &s, int dflt_proto) {
         if (n >= 2000) b.deep = true;
         break; }
       case CUT: cutreq.push_back(op.arg(0)); break;
+      case LOG: b.log = op.in(0, 0, 1) != 0; break;   // traffic logging on: setLogEnable(true) + a registered log channel
       default: break;
     }
   }
@@ -88,13 +91,16 @@ Built build(const Scenario &s, int dflt_proto) {
 }
 
 struct RunOut { FeedResult fr; std::vector<Ev> evs; };
-RunOut runOnce(int proto, const std::string &stream, const std::vector<size_t> &cuts, bool shallow) {
+RunOut runOnce(int proto, const std::string &stream, const std::vector<size_t> &cuts, bool shallow, bool log, uint64_t *log_lines = nullptr) {
   RunOut o;
   auto p = mkProto(proto);
+  std::unique_ptr<TrafficLog> tl;
+  if (log) { tl.reset(new TrafficLog); TrafficLog::enable(*p, "c14-peer"); }
   Recorder rec; rec.shallow = shallow; rec.attach(*p);
   p->setSendCallback([](const void *, size_t) {});
   o.fr = feed(*p, proto, stream, cuts);
   o.evs = std::move(rec.evs);
+  if (tl && log_lines) *log_lines += tl->lines;
   return o;
 }
 
@@ -129,17 +135,18 @@ RefHdr refHeader(const std::string &s) {
 std::string runFraming(const Scenario &s, CaseInfo &info, int dflt_proto) {
   Built b = build(s, dflt_proto);
   bool shallow = b.deep || b.stream.size() > (256u << 10);
-  RunOut whole = runOnce(b.proto, b.stream, b.proto == P_PACKET ? b.cuts : std::vector<size_t>(), shallow);
+  uint64_t log_lines = 0;
+  RunOut whole = runOnce(b.proto, b.stream, b.proto == P_PACKET ? b.cuts : std::vector<size_t>(), shallow, b.log, &log_lines);
   if (!whole.fr.err.empty()) return std::string(kProtoName[b.proto]) + ": " + whole.fr.err;
   if (b.proto != P_PACKET) {
     if (!b.cuts.empty()) {
-      RunOut seg = runOnce(b.proto, b.stream, b.cuts, shallow);
+      RunOut seg = runOnce(b.proto, b.stream, b.cuts, shallow, b.log);
       if (!seg.fr.err.empty()) return std::string(kProtoName[b.proto]) + " (segmented): " + seg.fr.err;
       std::string d = compareRuns("the generated segmentation", whole, seg, shallow);
       if (!d.empty()) return std::string(kProtoName[b.proto]) + ": " + d;
     }
     if (b.stream.size() >= 2 && b.stream.size() <= 1024) {
-      RunOut bb = runOnce(b.proto, b.stream, everyByte(b.stream.size()), shallow);
+      RunOut bb = runOnce(b.proto, b.stream, everyByte(b.stream.size()), shallow, b.log);
       if (!bb.fr.err.empty()) return std::string(kProtoName[b.proto]) + " (byte by byte): " + bb.fr.err;
       std::string d = compareRuns("byte-by-byte delivery", whole, bb, shallow);
       if (!d.empty()) return std::string(kProtoName[b.proto]) + ": " + d;
@@ -164,24 +171,29 @@ std::string runFraming(const Scenario &s, CaseInfo &info, int dflt_proto) {
   info.cls_if(b.deep, "deep_nesting>=2000");
   info.cls_if(b.big, "run>=64KiB");
   info.cls_if(b.edge_len, "length_field>=2^31-1");
+  info.cls_if(b.log, "traffic_logging_on");
+  info.cls_if(b.log && log_lines > 0, "traffic_line_logged");
   info.nontrivial = whole.fr.frames >= 1;
   return "";
 }
 
 // libFuzzer bytes -> scenario: the stream is the front of the input; the LAST byte is the number of cuts n (mod 8),
-// the 2n bytes before it are big-endian cut positions.  Seed files are therefore "stream + trailer".
+// the 2n bytes before it are big-endian cut positions; bits 3-4 of the last byte == 01 switch traffic logging on.
+// Seed files are therefore "stream + trailer".
 Scenario decodeBytes(int proto, const uint8_t *d, size_t n) {
   Scenario s;
   { Op o; o.code = PROTO; o.a = {proto}; s.ops.push_back(o); }
   size_t ncut = 0, body = n;
-  if (n >= 1) { ncut = d[n - 1] % 8; body = n - 1; while (ncut * 2 > body) --ncut; body -= ncut * 2; }
+  bool log = false;
+  if (n >= 1) { ncut = d[n - 1] % 8; log = ((d[n - 1] >> 3) & 3) == 1; body = n - 1; while (ncut * 2 > body) --ncut; body -= ncut * 2; }
+  if (log) { Op o; o.code = LOG; o.a = {1}; s.ops.push_back(o); }   // bits 3-4 of the last byte == 01: traffic logging on (a quarter of the byte values)
   if (body) { Op o; o.code = RAW; o.a.assign(d, d + body); s.ops.push_back(std::move(o)); }
   for (size_t k = 0; k < ncut; ++k) { Op o; o.code = CUT; o.a = {(int64_t)(d[body + 2 * k] << 8 | d[body + 2 * k + 1])}; s.ops.push_back(o); }
   return s;
 }
 
-const std::vector<const char*> kOpNames = {"proto", "raw", "rep", "lit", "hdr", "hdrauto", "nest", "unnest", "cut", "endframe"};
-const std::vector<int> kArity = {1, 8, 2, 1, 2, 1, 2, 2, 1, 0};
+const std::vector<const char*> kOpNames = {"proto", "raw", "rep", "lit", "hdr", "hdrauto", "nest", "unnest", "cut", "endframe", "log"};
+const std::vector<int> kArity = {1, 8, 2, 1, 2, 1, 2, 2, 1, 0, 1};
 
 SubDef mkFuzzSub(const char *name, int proto) {
   SubDef d; d.name = name; d.op_names = kOpNames; d.op_arity = kArity;
@@ -207,6 +219,7 @@ Scenario expandExtreme(uint64_t seed) {
   auto mk = [&v](int code, std::vector<int64_t> a) { Op o; o.code = code; o.a = std::move(a); v.push_back(std::move(o)); };
   int proto = (int)r.rng(0, 2);
   mk(PROTO, {proto});
+  if (r.chance(1, 3)) mk(LOG, {1});
   int shape = (int)r.pick({{5, 0}, {3, 1}, {4, 2}, {2, 3}, {2, 4}});
   bool hdr = proto == P_HEADER && shape != 2;
   int64_t delta = r.pick({{8, 0}, {1, 1}, {1, -1}});
